@@ -54,7 +54,7 @@ EXTRA_LAYOUTS = ["lines-blank-end", "lines-no-newline", "lines-files"]
 def observe(cs):
     chunk = 25
     work = [{"cid": "f%d" % k, "op": "fieldmap", "timeout": 900,
-             "cases": [{"docs": c["docs"], "field_mapping": fieldmap.to_field_mapping(c["map"]),
+             "cases": [{"docs": c["docs"], "field_mapping": fieldmap.to_field_mapping(c["map"], fieldmap.FORMS[(k + j) % len(fieldmap.FORMS)]),
                         "modes": ["whole", "lines", EXTRA_LAYOUTS[(k + j) % len(EXTRA_LAYOUTS)]]}
                        for j, c in enumerate(cs[k:k + chunk])]}
             for k in range(0, len(cs), chunk)]
@@ -113,7 +113,9 @@ def run(chk, tier, seed):
            "rule": "seeded OTel-shaped documents (1-3 per case; 1-2 resources x 0-2 scopes x 0-3 spans; keys absent / null with "
                    "probability 0-0.4; empty and absent arrays; numeric, textual and invalid timestamps) x mappings drawn from "
                    "the documented forms (plain path, header value, key/value lookup, priority list, concatenation), plus a "
-                   "small exhaustive family (each optional key absent / null; empty / absent arrays at every level); each case "
+                   "small exhaustive family (each optional key absent / null; empty / absent arrays at every level); mappings written "
+                   "in three surface forms of the same documented meaning (plain strings and omitted key_value / explicit nulls / "
+                   "every position an array); each case "
                    "in whole-file and one-JSON-per-line mode, plus one further per-line file layout (empty line after the last "
                    "document / no final newline / one single-line file per document); non-trivial = at least two spans extracted",
            "records_flattened_by_the_specification": nrec, "exhaustive": False}
